@@ -644,6 +644,8 @@ def jobs(tier):
         js.append((h_bytemasked_nextcarry, (True, n + 1), 600))
     for m in range(M + 2):
         js.append((h_regularize_arrayslice, (m,), 600))
+    from . import extra01
+    js += extra01.jobs(tier)
     return js
 
 
